@@ -503,15 +503,17 @@ pub async fn write_http_response(
     if close {
         write!(head_bytes, "connection: close\r\n",).unwrap();
     }
+    // The response gets exactly one framing field, added here.
+    // A second one from the application would make the message framing ambiguous.
+    if !response.headers.get_all("content-length").is_empty() {
+        return Err(HttpError::DuplicateContentLengthHeader);
+    }
+    if !response.headers.get_all("transfer-encoding").is_empty() {
+        return Err(HttpError::DuplicateTransferEncodingHeader);
+    }
     if let Some(body_len) = response.body.len() {
-        if !response.headers.get_all("content-length").is_empty() {
-            return Err(HttpError::DuplicateContentLengthHeader);
-        }
         write!(head_bytes, "content-length: {body_len}\r\n").unwrap();
     } else {
-        if !response.headers.get_all("transfer-encoding").is_empty() {
-            return Err(HttpError::DuplicateTransferEncodingHeader);
-        }
         write!(head_bytes, "transfer-encoding: chunked\r\n").unwrap();
     }
     for header in &response.headers {
